@@ -2,6 +2,7 @@
 import itertools
 
 import numpy as np
+from mc.ref.linalg import allclose as _close
 import sympy
 
 from mc.engine import Section, jdump
@@ -91,11 +92,11 @@ def inverse_case(case):
         Ui = unitary(inv, sub) if inv.operations else np.eye(2 ** n)
         Uii = unitary(inv.inverse(), sub) if inv.operations else np.eye(2 ** n)
         k += 2
-        if not np.allclose(Uii, U, atol=ATOL):
+        if not _close(Uii, U, atol=ATOL):
             return {"ok": False, "msg": "inverting twice does not return a circuit with the original action", "sig": "inverse:double" + (":frac" if frac_herm else ""), "ops": k}
         if non_unitary:
             continue
-        if not np.allclose(Ui, U.conj().T, atol=ATOL):
+        if not _close(Ui, U.conj().T, atol=ATOL):
             sig = "inverse:adjoint"
             if frac_herm:
                 # D15: predicted wrong answer = each fractional power of a gate g replaced by the same power of g.dagger
@@ -104,7 +105,7 @@ def inverse_case(case):
                     "observed": str(np.round(Ui, 4).tolist())[:300], "sig": sig, "ops": k}
         both = unitary(c + inv, sub)
         k += 1
-        if (c + inv).n_qubits != n or not np.allclose(both, np.eye(2 ** n), atol=ATOL):
+        if (c + inv).n_qubits != n or not _close(both, np.eye(2 ** n), atol=ATOL):
             return {"ok": False, "msg": "circuit followed by its inverse is not the identity on the whole register", "sig": "inverse:identity", "ops": k}
     return {"ok": True, "nt": bool(case["ops"]), "ops": k, "out": "len%d" % len(case["ops"])}
 
@@ -121,7 +122,7 @@ def d15_predicts(case, sub, Ui):
         else:
             M = num(mk_gate(g).matrix).conj().T
         U = L.embed(M, tuple(od["q"]), n) @ U
-    return np.allclose(U, Ui, atol=1e-7)
+    return _close(U, Ui, atol=1e-7)
 
 
 def controlled_case(case):
@@ -148,7 +149,7 @@ def controlled_case(case):
             return {"ok": False, "msg": "controlled circuit is wider than n+1", "observed": width, "sig": "controlled:width"}
         U = unitary(cc, sub) if cc.operations else np.eye(2 ** width)
         U = pad(U, width, N)
-        if not np.allclose(U, R, atol=ATOL):
+        if not _close(U, R, atol=ATOL):
             return {"ok": False, "msg": "controlled(%d): not identity for control=0 / original circuit on the shifted qubits for control=1" % k, "expected": str(np.round(R, 3).tolist())[:300],
                     "observed": str(np.round(U, 3).tolist())[:300], "sig": "controlled:action"}
     return {"ok": True, "nt": bool(case["ops"]), "ops": 2, "out": "k%d" % k}
@@ -245,7 +246,7 @@ def ancilla_case(case):
         return {"ok": False, "msg": "ancilla register of %d qubits widens a %d-qubit circuit to %d" % (k, n, e.n_qubits), "expected": n + k, "observed": e.n_qubits, "sig": "ancilla:width"}
     U = ref_unitary(bound_ops(case["ops"], SUBS[0]), n)
     Ue = unitary(e, SUBS[0]) if e.operations else np.eye(2 ** (n + k))
-    if not np.allclose(Ue, np.kron(U, np.eye(2 ** k)), atol=ATOL):
+    if not _close(Ue, np.kron(U, np.eye(2 ** k)), atol=ATOL):
         return {"ok": False, "msg": "adding ancillas changed the action on the original qubits", "sig": "ancilla:action"}
     return {"ok": True, "nt": k >= 2, "ops": 2, "out": "k%d" % k}
 
